@@ -291,6 +291,10 @@
 #[macro_use]
 extern crate derive_builder;
 
+/// Verification hooks (failpoints); compiled only with `--cfg delaunay_verif`.
+#[cfg(delaunay_verif)]
+pub mod verif;
+
 /// The `core` module contains the primary data structures and algorithms for building and manipulating Delaunay triangulations.
 ///
 /// It includes the `Tds` struct, which represents the triangulation, as well as `Cell`, `Facet`, and `Vertex` components.
